@@ -14,6 +14,7 @@ import sys
 
 PULSE_DIR = os.path.join(os.path.dirname(os.path.abspath(__file__)), "pulses")
 VERIF_DIR = os.path.dirname(os.path.dirname(os.path.abspath(__file__)))
+_SHARED_GATES = {}
 
 
 def outcome(entry, text):
@@ -32,7 +33,11 @@ def outcome(entry, text):
             from jaqalpaq.parser import parse_jaqal_string
             from vlib.pulses.moda import jaqal_gates
 
-            c = parse_jaqal_string(text, inject_pulses=dict(jaqal_gates.ALL_GATES), autoload_pulses=False)
+            # ONE gate-set object for all calls of the process, as a caller with a module-level
+            # gate dictionary has: anything the library keys on that object is shared state
+            if not _SHARED_GATES:
+                _SHARED_GATES.update(jaqal_gates.ALL_GATES)
+            c = parse_jaqal_string(text, inject_pulses=_SHARED_GATES, autoload_pulses=False)
         elif entry == "parse-rel":
             from jaqalpaq.parser import parse_jaqal_string
 
